@@ -29,8 +29,16 @@ func verifC08_Wrapper() {
 	before := vWindowTotal(w.CircuitBreaker)
 	calls := 0
 	outcome := verifChoose("handlerOutcome", 3) // 0 ok, 1 error, 2 panic
+	// the client may give up while its call is in flight: the outcome is recorded all the same
+	cctx, cancel := context.WithCancel(context.Background())
+	defer cancel()
+	cancelDuring := verifBool("clientCancelsDuringTheCall")
 	handler := func(ctx context.Context) error {
 		calls++
+		if cancelDuring {
+			cancel()
+			verifCover("cancelled-during-the-call")
+		}
 		switch outcome {
 		case 1:
 			return errHandler
@@ -47,7 +55,7 @@ func verifC08_Wrapper() {
 				panicked = true
 			}
 		}()
-		err = w.Wrap(handler)(context.Background())
+		err = w.Wrap(handler)(cctx)
 	}()
 	after := vWindowTotal(w.CircuitBreaker)
 	if open {
